@@ -15,7 +15,9 @@ convenience functions over the regenerated table (`dispatch_uses_resolution`) an
 import GlotaranProofs.Lemmas.C19
 import GlotaranProofs.Lemmas.C19Reach
 import GlotaranProofs.Lemmas.C19Api
+import GlotaranProofs.Lemmas.C19Gen
 import GlotaranModel.Generated.C19
+import GlotaranModel.Generated.C19Builtins
 namespace Glotaran.C19
 
 /-- an op that is not a `set_plugin` call on short name `k` -/
@@ -152,10 +154,11 @@ theorem dotted_short_names_rejected (r : Registry) (k : String) (hk : hasDot k =
   · intro m n u; simp [step, addInstLoop, addOne, hk]
 
 /-- `set_plugin` with something that is not a registered full name is refused, registry
-    untouched, and the error names exactly the registered dotted keys. -/
+    untouched, and the error names exactly the registered dotted keys (in the order they were first
+    stored: the dict's iteration order). -/
 theorem set_plugin_unknown_rejected (r : Registry) (k full : String)
     (hk : hasDot k = false) (h : hasDot full = false ∨ lookup r full = none) :
-    step r (.setPlugin k full) = (r, .errUnknownFull ((sortedKeys r true).filter hasDot)) := by
+    step r (.setPlugin k full) = (r, .errUnknownFull ((keys r).filter hasDot)) := by
   rcases h with h | h
   · simp [step, hk, h]
   · by_cases hf : hasDot full = true
@@ -911,6 +914,263 @@ theorem extOf_spec (dir stem ext : List Char) (hstem : ∀ c ∈ stem, c ≠ '/'
   simp
   exact ⟨c, hc, hcd⟩
 
+/-! ### the source itself, translated (`Generated/C19Fns.lean`), equals the model
+
+`harness/props/_c19_fns.py` rewrites the functions of `base_registry.py` that work on the registry dict
+(and `infer_file_format`) statement by statement into `do` blocks over the state/exception monad of
+`C19Py.lean` (dict + warnings + object counter).  Each theorem says: for every interpreter world, every
+state and every argument the translated function does what the model operation of the theorems above
+does — same dict, same warnings, same result, `ValueError` exactly where the model reports one
+(`Res.outcome` forgets the wording of a message, keeps the exception class and the lists of names it
+prints).  An edit of the source changes the generated definition; if it changes the behaviour one of
+these stops compiling. -/
+
+open Py in
+/-- `full_plugin_name` is `module.ClassName` for a class and for an instance. -/
+theorem generated_full_plugin_name_eq_model (w : World) (p : Plugin) (s : St) :
+    Gen.full_plugin_name w p s = .ok p.fullName s := gen_full_plugin_name_eq w p s
+
+open Py in
+/-- `is_registered_plugin` is membership in the dict, nothing else. -/
+theorem generated_is_registered_plugin_eq_model (w : World) (k : String) (s : St) :
+    Gen.is_registered_plugin w k s = .ok (lookup s.reg k).isSome s := gen_is_registered_eq w k s
+
+open Py in
+/-- `add_plugin_to_registry` is `addOne`: refused (`ValueError`, nothing changed) exactly when `addOne`
+    refuses, otherwise the dict `addOne` gives and the overwrite warning (old and new plugin, the name the
+    conflict is about) exactly when `addOne` flags one. -/
+theorem generated_add_plugin_eq_model (w : World) (key : String) (p : Plugin) (fn id : String) (s : St) :
+    (Gen.add_plugin_to_registry w key p fn id s).outcome =
+      match addOne s.reg key p id with
+      | none => .err "ValueError" [] s
+      | some (r', warned) => .ok () { s with reg := r', warns := s.warns ++ addWarnings s.reg key p fn warned } :=
+  gen_add_plugin_eq w key p fn id s
+
+open Py in
+/-- `add_instantiated_plugin_to_registry` (a list of names or one name) is the model's `addInstLoop`: one new
+    object per name (named by the counter, in order, created before the name is examined), registered with
+    the name as instance identifier; the loop stops at the first refused name with what was registered before
+    it kept.  `addInstSt` is that loop on the whole state; its dict and `Out` are `addInstLoop`'s. -/
+theorem generated_add_instantiated_eq_model (w : World) (m n fn : String) (keys : List String) (s : St) :
+    ((Gen.add_instantiated_plugin_to_registry w (.list keys) ⟨m, n⟩ fn s).outcome =
+      match addInstSt m n fn keys s [] with
+      | (s', .oks _) => .ok () s'
+      | (s', _) => .err "ValueError" [] s') ∧
+    ((addInstSt m n fn keys s []).1.reg, (addInstSt m n fn keys s []).2) = addInstLoop s.reg m n keys s.nextUid [] ∧
+    ∀ k, Gen.add_instantiated_plugin_to_registry w (.str k) ⟨m, n⟩ fn =
+      Gen.add_instantiated_plugin_to_registry w (.list [k]) ⟨m, n⟩ fn :=
+  ⟨gen_inst_eq w m n fn keys s [], addInstSt_eq_loop m n fn keys s [], fun k => gen_inst_str w k ⟨m, n⟩ fn⟩
+
+open Py in
+/-- `set_plugin` is `step (.setPlugin …)`: the same dict, and the `ValueError` for an unknown full name prints
+    exactly the dotted keys in the dict's own order. -/
+theorem generated_set_plugin_eq_model (w : World) (key full kn : String) (s : St) :
+    (Gen.set_plugin w key full kn s).outcome =
+      match step s.reg (.setPlugin key full) with
+      | (r', .done) => .ok () { s with reg := r' }
+      | (_, .errUnknownFull known) => .err "ValueError" [known] s
+      | _ => .err "ValueError" [] s := gen_set_plugin_eq w key full kn s
+
+open Py in
+/-- `get_plugin_from_registry` is `step (.get …)`: the plugin stored under exactly that key, or `ValueError`. -/
+theorem generated_get_plugin_eq_model (w : World) (k msg : String) (s : St) :
+    (Gen.get_plugin_from_registry w k msg s).outcome =
+      match (step s.reg (.get k)).2 with
+      | .found p => .ok p s
+      | _ => .err "ValueError" [] s := gen_get_plugin_eq w k msg s
+
+open Py in
+/-- `registered_plugins` is `sortedKeys`: all keys, or the undotted ones, sorted. -/
+theorem generated_registered_plugins_eq_model (w : World) (full : Bool) (s : St) :
+    Gen.registered_plugins w full s = .ok (sortedKeys s.reg full) s := gen_registered_plugins_eq w full s
+
+open Py in
+/-- `infer_file_format` is the model's `inferFileFormat` (with `os.path.isfile` taken from the world): same
+    format, `ValueError` in the same cases, no effect on the registry. -/
+theorem generated_infer_file_format_eq_model (w : World) (path : String) (nte af : Bool) (s : St) :
+    (Gen.infer_file_format w path nte af s).outcome =
+      match inferFileFormat path (w.isFile path) nte af with
+      | .ok fmt => .ok fmt s
+      | .error _ => .err "ValueError" [] s := gen_infer_file_format_eq w path nte af s
+
+/-! ### import-time registration: the regenerated decorator call sites and `load_plugins()`
+
+`Generated/C19Builtins.lean` lists every class under `glotaran/builtin/` that a registering decorator is applied
+to, with the literal names it registers, and the `glotaran.plugins.*` entry points of `setup.cfg`.  The model of
+`load_plugins()` (`loadedCalls` / `loadPlugins`, GlotaranModel/C19.lean) is the code's: entry points in importlib's
+order, foreign groups skipped, no `try` around `entry_point.load()`. -/
+/-- the short names the builtin call sites register in registry `attr`, in table order -/
+def builtinNames (bs : List BuiltinReg) (attr : String) : List String :=
+  (bs.filter (fun b => b.attr = attr)).flatMap (·.names)
+
+/-- every call site of the table has literal names, names one of the three registries, registers at least one name,
+    no name contains '.', and inside each registry no name is registered twice -/
+def builtinTableOk (bs : List BuiltinReg) : Bool :=
+  bs.all (fun b => b.literal && !b.names.isEmpty && (b.attr = "data_io" || b.attr = "project_io" || b.attr = "megacomplex")
+    && b.names.all (fun n => !hasDot n) && (b.attr != "megacomplex" || b.names.length = 1)) &&
+  ["data_io", "project_io", "megacomplex"].all (fun a => (builtinNames bs a).Nodup)
+
+theorem builtin_names_unique : builtinTableOk Generated.builtins = true := by decide
+
+/-- the registration call a builtin call site makes when its module is imported (`u`: identity of the class / of its
+    first instance) -/
+def BuiltinReg.call (b : BuiltinReg) (u : Nat) : ApiCall :=
+  if b.attr = "megacomplex" then .register "register_megacomplex" (b.names.headD "") b.module b.cls u
+  else if b.attr = "data_io" then .registerInst "register_data_io" b.names b.module b.cls u
+  else .registerInst "register_project_io" b.names b.module b.cls u
+
+def builtinCalls : List BuiltinReg → Nat → List ApiCall
+  | [], _ => []
+  | b :: bs, u => b.call u :: builtinCalls bs (u + b.names.length)
+
+/-- what a builtin short name must resolve to -/
+def resolvesTo (rs : Registries) (attr k full : String) : Bool :=
+  match (rs.get attr).bind (fun r => lookup r k) with
+  | some p => p.fullName = full
+  | none => false
+
+theorem builtins_register_cleanly :
+    let rs := runApi Generated.accessors {} (builtinCalls Generated.builtins 0)
+    Generated.builtins.all (fun b => b.names.all (fun k => resolvesTo rs b.attr k (b.module ++ "." ++ b.cls))) = true := by
+  decide +kernel
+
+def EntryPoint.raw (e : EntryPoint ApiCall) : EntryPoint (String × List Val) :=
+  { group := e.group, calls := e.calls.map (fun c => (c.name, c.args)), fails := e.fails }
+
+private theorem loadedCalls_raw (eps : List (EntryPoint ApiCall)) :
+    loadedCalls (eps.map EntryPoint.raw) = ((loadedCalls eps).1.map (fun c => (c.name, c.args)), (loadedCalls eps).2) := by
+  induction eps with
+  | nil => rfl
+  | cons e es ih =>
+    simp only [List.map_cons, loadedCalls, EntryPoint.raw]
+    by_cases hg : isPluginGroup e.group <;> by_cases hf : e.fails <;> simp [hg, hf, ih]
+
+/-- **Order of import-time registration.**  `load_plugins()` performs the registration calls of the entry points of the
+    `glotaran.plugins*` groups in the order importlib yields them, skipping every other group; an entry point whose
+    import raises is the last one loaded (its own calls made before the exception count), nothing after it is loaded. -/
+theorem load_plugins_order (pre post : List (EntryPoint α)) (e : EntryPoint α)
+    (hpre : ∀ x ∈ pre, isPluginGroup x.group = true → x.fails = false) :
+    ((isPluginGroup e.group = true ∧ e.fails = true) →
+      loadedCalls (pre ++ e :: post) = ((pre.filter (fun x => isPluginGroup x.group)).flatMap (·.calls) ++ e.calls, true)) ∧
+    ((∀ x ∈ post, isPluginGroup x.group = true → x.fails = false) → (isPluginGroup e.group = true → e.fails = false) →
+      loadedCalls (pre ++ e :: post)
+        = (((pre ++ e :: post).filter (fun x => isPluginGroup x.group)).flatMap (·.calls), false)) := by
+  induction pre with
+  | nil =>
+    constructor
+    · intro ⟨hg, hf⟩; simp [loadedCalls, hg, hf]
+    · intro hpost he
+      have hall : ∀ l : List (EntryPoint α), (∀ x ∈ l, isPluginGroup x.group = true → x.fails = false) →
+          loadedCalls l = ((l.filter (fun x => isPluginGroup x.group)).flatMap (·.calls), false) := by
+        intro l
+        induction l with
+        | nil => intro _; rfl
+        | cons a t iht =>
+          intro h
+          have ht := iht (fun x hx => h x (by simp [hx]))
+          by_cases hg : isPluginGroup a.group = true
+          · have := h a (by simp) hg
+            simp [loadedCalls, hg, this, ht]
+          · simp [loadedCalls, hg, ht]
+      exact hall _ (by
+        intro x hx
+        rcases List.mem_cons.mp hx with h | h
+        · subst h; exact he
+        · exact hpost x h)
+  | cons a t ih =>
+    have iht := ih (fun x hx => hpre x (by simp [hx]))
+    constructor
+    · intro h
+      by_cases hg : isPluginGroup a.group = true
+      · have := hpre a (by simp) hg
+        simp [loadedCalls, hg, this, iht.1 h]
+      · simp [loadedCalls, hg, iht.1 h]
+    · intro hpost he
+      by_cases hg : isPluginGroup a.group = true
+      · have := hpre a (by simp) hg
+        simp [loadedCalls, hg, this, iht.2 hpost he]
+      · simp [loadedCalls, hg, iht.2 hpost he]
+
+theorem loadPlugins_eq_runApi (eps : List (EntryPoint ApiCall)) (rs : Registries) :
+    (loadPlugins Generated.accessors false (eps.map EntryPoint.raw) rs).1 = runApi Generated.accessors rs (loadedCalls eps).1 := by
+  simp only [loadPlugins, loadedCalls_raw, Bool.false_eq_true, if_false, runApi]
+  generalize (loadedCalls eps).1 = cs
+  suffices h : ∀ (acc : Registries × List ApiOut),
+      (List.foldl (fun (acc : Registries × List ApiOut) (c : String × List Val) =>
+        ((callApi Generated.accessors c.1 acc.1 c.2).1, acc.2 ++ [(callApi Generated.accessors c.1 acc.1 c.2).2]))
+        acc (cs.map (fun c => (c.name, c.args)))).1 =
+      List.foldl (fun s c => (callApi Generated.accessors c.name s c.args).1) acc.1 cs from h (rs, [])
+  induction cs with
+  | nil => intro acc; rfl
+  | cons c cs ih => intro acc; simp only [List.map_cons, List.foldl_cons]; exact ih _
+
+/-- **An entry point cannot shadow a name that is already registered** (e.g. by a builtin whose module was imported
+    before): whatever well-typed registration calls the entry points loaded afterwards make — on any registry, with or
+    without a failing entry point, in any order — short name `k` of registry `attr` still resolves to the plugin `b` it
+    resolved to before, unless one of them calls `set_*_plugin(k, …)` of that registry. -/
+theorem entry_point_cannot_shadow_builtin (rs : Registries) (attr : String) (r : Registry) (hr : rs.get attr = some r)
+    (k : String) (b : Plugin) (hk : hasDot k = false) (hb : lookup r k = some b)
+    (eps : List (EntryPoint ApiCall)) (hwt : ∀ e ∈ eps, ∀ c ∈ e.calls, c.WellTyped)
+    (hnoset : ∀ e ∈ eps, ∀ c ∈ e.calls, ∀ op, c.opOn attr = some op → op.notSetOn k) :
+    ∃ r', (loadPlugins Generated.accessors false (eps.map EntryPoint.raw) rs).1.get attr = some r' ∧ lookup r' k = some b := by
+  have hsub : ∀ c ∈ (loadedCalls eps).1, ∃ e ∈ eps, c ∈ e.calls := by
+    induction eps with
+    | nil => intro c hc; simp [loadedCalls] at hc
+    | cons e es ih =>
+      intro c hc
+      simp only [loadedCalls] at hc
+      by_cases hg : isPluginGroup e.group = true
+      · by_cases hf : e.fails = true
+        · simp [hg, hf] at hc; exact ⟨e, by simp, hc⟩
+        · simp [hg, hf] at hc
+          rcases hc with hc | hc
+          · exact ⟨e, by simp, hc⟩
+          · obtain ⟨e', he', hc'⟩ := ih (fun e he => hwt e (by simp [he])) (fun e he => hnoset e (by simp [he])) c hc
+            exact ⟨e', by simp [he'], hc'⟩
+      · simp [hg] at hc
+        obtain ⟨e', he', hc'⟩ := ih (fun e he => hwt e (by simp [he])) (fun e he => hnoset e (by simp [he])) c hc
+        exact ⟨e', by simp [he'], hc'⟩
+  rw [loadPlugins_eq_runApi]
+  have h := api_history_projects (loadedCalls eps).1 (by
+    intro c hc; obtain ⟨e, he, hce⟩ := hsub c hc; exact hwt e he c hce) attr rs r hr
+  refine ⟨_, h, ?_⟩
+  exact run_keeps_short _ r k b hk hb (by
+    intro op hop
+    obtain ⟨c, hc, hco⟩ := List.mem_filterMap.mp hop
+    obtain ⟨e, he, hce⟩ := hsub c hc
+    exact hnoset e he c hce op hco)
+
+
+/-- the plugin of an entry point that asks for a taken name is not lost: it is stored under its full name (the name
+    the overwrite warning tells the user to pass to `set_*_plugin`) and under its full key, the taken short name keeps
+    its plugin, and the warning is issued exactly when the two full names differ. -/
+theorem shadowed_entry_point_reachable (r : Registry) (k m n : String) (u : Nat) (b : Plugin)
+    (hk : hasDot k = false) (hb : lookup r k = some b) :
+    let res := step r (.addInst [k] m n u)
+    lookup res.1 k = some b ∧ lookup res.1 (m ++ "." ++ n) = some ⟨m, n, u⟩ ∧
+      lookup res.1 (fullKey ⟨m, n, u⟩ k) = some ⟨m, n, u⟩ ∧ res.2 = .oks [decide (b.fullName ≠ m ++ "." ++ n)] := by
+  have hfk : fullKey ⟨m, n, u⟩ k ≠ k := ne_of_hasDot (hasDot_fullKey _ k) hk
+  have hfn : (⟨m, n, u⟩ : Plugin).fullName ≠ k := ne_of_hasDot (hasDot_fullName _) hk
+  simp only [Plugin.fullName] at hfn
+  by_cases he : m ++ "." ++ n = fullKey ⟨m, n, u⟩ k <;>
+    simp [step, addInstLoop, addOne, hk, hb, lookup_insert, Plugin.fullName, hfk, hfn, he] <;> congr
+
+/-- **The order importlib yields the entry points in decides who owns a short name**: nothing makes glotaran's own
+    modules load first.  A third-party entry point listed before the builtin yml plugin takes `yml`; the builtin then
+    gets the overwrite warning and is reachable under its full name only. -/
+theorem entry_point_order_decides_counterexample :
+    let third : EntryPoint ApiCall := ⟨"glotaran.plugins.project_io", [.registerInst "register_project_io" ["yml"] "third" "Yml" 7], false⟩
+    let builtin : EntryPoint ApiCall := ⟨"glotaran.plugins.project_io",
+      [.registerInst "register_project_io" ["yml", "yaml", "yml_str"] "glotaran.builtin.io.yml.yml" "YmlProjectIo" 0], false⟩
+    (resolvesTo (loadPlugins Generated.accessors false ([builtin, third].map EntryPoint.raw) {}).1 "project_io" "yml"
+        "glotaran.builtin.io.yml.yml.YmlProjectIo" = true) ∧
+    (resolvesTo (loadPlugins Generated.accessors false ([third, builtin].map EntryPoint.raw) {}).1 "project_io" "yml" "third.Yml" = true) ∧
+    (resolvesTo (loadPlugins Generated.accessors false ([third, builtin].map EntryPoint.raw) {}).1 "project_io"
+        "glotaran.builtin.io.yml.yml.YmlProjectIo" "glotaran.builtin.io.yml.yml.YmlProjectIo" = true) ∧
+    (loadPlugins Generated.accessors false ([third, builtin].map EntryPoint.raw) {}).2.1 =
+      [.base (.oks [false]), .base (.oks [true, false, false])] := by
+  decide +kernel
+
 /-! ### non-vacuity: the hypotheses are met by concrete non-trivial states -/
 
 example : hasDot "csv" = false ∧ lookup [("nc", ⟨"m", "Nc", 0⟩)] "csv" = none := by decide
@@ -1002,5 +1262,48 @@ example : supportedExtensions ["csv", "md_str", "yml", "zz"]
       (lookup [("csv", ⟨"m", "C", 0⟩), ("md_str", ⟨"m", "C", 1⟩), ("yml", ⟨"m", "Y", 2⟩)])
       (fun p m => p.name = "C" || m = "load_model") ["load_model", "save_model"] = [".csv"] ∧
     endsWithStr "md_str" = true ∧ endsWithStr "str" = false := by decide
+
+-- generated_*_eq_model: the translated functions run on a concrete state (a conflicting registration that warns, a
+-- three-name instantiation that stops at the dotted name, a re-pointing, an unknown full name, a lookup, both listings)
+def exW : Py.World := ⟨fun p => p.uid ≥ 100, fun path => path = "d/f.yml"⟩
+def exSt : Py.St := ⟨[("a", ⟨"m", "A", 0⟩), ("m.A_a", ⟨"m", "A", 0⟩)], [], 1⟩
+example : (Gen.add_plugin_to_registry exW "a" ⟨"x", "B", 1⟩ "set_data_plugin" "a" exSt).state.reg
+      = [("a", ⟨"m", "A", 0⟩), ("m.A_a", ⟨"m", "A", 0⟩), ("x.B_a", ⟨"x", "B", 1⟩), ("x.B", ⟨"x", "B", 1⟩)] ∧
+    (Gen.add_plugin_to_registry exW "a" ⟨"x", "B", 1⟩ "set_data_plugin" "a" exSt).state.warns
+      = [Py.overwriteWarning "a" ⟨"m", "A", 0⟩ ⟨"x", "B", 1⟩ "set_data_plugin"] ∧
+    addOne exSt.reg "a" ⟨"x", "B", 1⟩ "a" = some ((Gen.add_plugin_to_registry exW "a" ⟨"x", "B", 1⟩ "f" "a" exSt).state.reg, true) := by
+  decide
+example : ((Gen.add_instantiated_plugin_to_registry exW (.list ["b", "a", "c.d", "e"]) ⟨"x", "B"⟩ "f" exSt).state.reg.map (·.1)
+      = ["a", "m.A_a", "x.B_b", "b", "x.B_a", "x.B"]) ∧
+    (Gen.add_instantiated_plugin_to_registry exW (.list ["b", "a", "c.d", "e"]) ⟨"x", "B"⟩ "f" exSt).state.nextUid = 4 ∧
+    (Py.addInstSt "x" "B" "f" ["b", "a", "c.d", "e"] exSt []).2 = .errDottedAfter [false, true] := by
+  decide
+example : (Gen.set_plugin exW "b" "m.A_a" "format_name" exSt).state.reg.map (·.1) = ["a", "m.A_a", "b"] ∧
+    (step exSt.reg (.setPlugin "b" "m.B")).2 = .errUnknownFull ["m.A_a"] ∧
+    (step exSt.reg (.get "a")).2 = .found ⟨"m", "A", 0⟩ ∧ (keys exSt.reg).filter (fun k => !hasDot k) = ["a"] ∧
+    (⟨"m", "A", 7⟩ : Plugin).fullName = "m.A" := by
+  decide
+example : exW.isFile "d/f.yml" = true ∧ exW.isFile "d/g.csv" = false ∧ extOf "d/f.yml" = some "yml" ∧
+    extOf "d/noext" = none ∧ Py.lstripDots ".yml" = "yml" ∧ Py.splitextExt "d/f.yml" = ".yml" := by
+  decide
+
+-- import-time registration: the builtin table is non-trivial; a loading sequence with a foreign group, a failing entry
+-- point after which nothing is loaded, and the well-typedness / no-set hypotheses of entry_point_cannot_shadow_builtin
+example : Generated.builtins.length ≥ 10 ∧ builtinNames Generated.builtins "project_io" ≠ [] ∧
+    (builtinCalls Generated.builtins 0).length = Generated.builtins.length := by decide
+example : loadedCalls [(⟨"glotaran.plugins.data_io", [1, 2], false⟩ : EntryPoint Nat), ⟨"console_scripts", [3], false⟩,
+    ⟨"glotaran.plugins_x", [4], true⟩, ⟨"glotaran.plugins.project_io", [5], false⟩] = ([1, 2, 4], true) := by decide
+example : ∀ c ∈ [ApiCall.registerInst "register_project_io" ["yml"] "third" "Yml" 7, .register "register_megacomplex" "decay" "third" "D" 8],
+    c.WellTyped ∧ ∀ op, c.opOn "project_io" = some op → op.notSetOn "yml" := by
+  intro c hc
+  simp only [List.mem_cons, List.mem_nil_iff, or_false] at hc
+  rcases hc with rfl | rfl
+  · have h1 : (ApiCall.registerInst "register_project_io" ["yml"] "third" "Yml" 7).opOn "project_io"
+        = some (.addInst ["yml"] "third" "Yml" 7) := by decide
+    exact ⟨wellTyped_of_check _ (by decide), by intro op h; rw [h1] at h; cases h; trivial⟩
+  · have h1 : (ApiCall.register "register_megacomplex" "decay" "third" "D" 8).opOn "project_io" = none := by decide
+    exact ⟨wellTyped_of_check _ (by decide), by intro op h; rw [h1] at h; cases h⟩
+example : hasDot "yml" = false ∧ lookup [("yml", ⟨"glotaran.builtin.io.yml.yml", "YmlProjectIo", 0⟩)] "yml" =
+    some ⟨"glotaran.builtin.io.yml.yml", "YmlProjectIo", 0⟩ := by decide
 
 end Glotaran.C19
